@@ -209,7 +209,7 @@ def u_v2(c):
         if c.model is None:
             sec = "s3cr3t" if kind == "str" else {0: "k0", 1: "k1"}
             good = W.create_signed_value(sec, "n", "val", version=2, clock=lambda: 1700000000.0, key_version=(None if kind == "str" else 1))
-            value = c.rng.choice([good, good[:-1] + b"0", good.replace(b"1:n", b"1:m"), b"2|1:0|", b"2|x", b"2|-1:0|", b"2|1:0|10:1700000000|1:n|4:dmFs|" + b"0" * 64,
+            value = c.rng.choice([good, good[:-1] + b"0", good[:-64] + good[-64:].upper(), good.replace(b"1:n", b"1:m"), b"2|1:0|", b"2|x", b"2|-1:0|", b"2|1:0|10:1700000000|1:n|4:dmFs|" + b"0" * 64,
                                   good.replace(b"|1:1|", b"|1:7|"), b"2|5_0:a", value, b"2|" + value])
             name, now, age = c.rng.choice(["n", "m"]), c.rng.choice([1700000000.0, 1700000000.0 + 40 * 86400]), c.rng.choice([31, 0, 1000000])
             c.values.update({"value": value, "name": name, "now": now, "max_age_days": age})
@@ -511,8 +511,11 @@ def standin(tier, seed):
                     muts.add(sv[:i] + ch + sv[i + 1:])
                 muts.add(sv[:i] + ch + sv[i:])
             if i < len(sv):
+                muts.add(sv[:i] + sv[i:i + 1].swapcase() + sv[i + 1:])           # the same letter in the other case (a hex digit of the signature, a base64 letter)
                 muts.add(sv[:i] + sv[i + 1:])
                 muts.add(sv[:i] + sv[i + 1:i + 2] + sv[i:i + 1] + sv[i + 2:])      # transposition (moves a character across a field boundary)
+        tail = 64 if ver == 2 else 40
+        muts.add(sv[:-tail] + sv[-tail:].upper())                                 # the whole signature in upper-case hex
         muts.discard(sv)
         for m in muts:
             got = dec(sec, name, m, clock=clk, min_version=1)
